@@ -37,19 +37,27 @@ class C13(Check):
         return 400.0 if tier == "quick" else 1700.0
 
     def judge(self, case):
-        """(run, errs, parsed)"""
+        """(run, errs, parsed, glue)"""
         run = fixlib.FixRun(case, require_clean=True)
         if run.excluded or not run.changed:
-            return run, [], None
+            return run, [], None, "none"
         rp = run.reparse()
         if isinstance(rp, Crash):
             run.excluded = "crash(C04):" + rp.type
-            return run, [], None
-        return run, rp[0], rp[1]
+            return run, [], None, "none"
+        glue = "none"
+        if rp[0]:
+            # is it a glued / split token (the C12 view of the same output)?
+            rl = run.relexed()
+            if not isinstance(rl, Crash) and run.tree.raw == run.fixed:
+                d = fixlib.seq_diff(run.tree_tokens(), rl[0])
+                if d is not None:
+                    glue = d[0] + ":" + "+".join(t[2] for t in d[1][:2])
+        return run, rp[0], rp[1], glue
 
     def run_case(self, case):
         out = Outcome(labels=fixlib.base_labels(case))
-        run, errs, parsed = self.judge(case)
+        run, errs, parsed, glue = self.judge(case)
         if run.excluded:
             out.excluded = run.excluded
             return out
@@ -63,23 +71,16 @@ class C13(Check):
         kind = code_of(errs[0])
 
         def still(c):
-            _, e, _ = self.judge(c)
-            return bool(e) and code_of(e[0]) == kind
+            _, e, _, g = self.judge(c)
+            return bool(e) and code_of(e[0]) == kind and g == glue
 
-        rule = fixlib.attribute(case, run.fixing_rules(), still)
+        rule = fixlib.attribute(case, run.fixing_rules(), still, limit=20)
         at, first = "-", "-"
         rv = parsed.root_variant()
         if rv is not None:
             fu = fixlib.first_unparsable(rv.tree)
             if fu:
                 at, first = fu
-        # is it a glued / split token (the C12 view of the same output)?
-        glue = "none"
-        rl = run.relexed()
-        if not isinstance(rl, Crash) and run.tree.raw == run.fixed:
-            d = fixlib.seq_diff(run.tree_tokens(), rl[0])
-            if d is not None:
-                glue = d[0] + ":" + "+".join(t[2] for t in d[1][:2])
         out.fail(f"{kind}: {errs[0].desc()[:120]} after fixing; fixed={run.fixed[:160]!r}", clause="new-" + kind, rule=rule,
                  glue=glue, at=at, first=first)
         return out
